@@ -8,7 +8,7 @@ from .. import bind
 from ..core import Check, Space
 
 BEHAVIOURS = ("identity", "md", "rename", "addarg", "replarg", "md+rename")
-PLACES = ("class", "method", "both", "func", "prop")
+PLACES = ("class", "method", "both", "func", "prop", "func+method")
 
 MODEL_SRC = '''
 from __future__ import annotations
@@ -47,6 +47,8 @@ def _act(kind, owner, behaviour):
 def class_src(name, place, beh, members, inherit=False):
     deco_c = f"@func_adl_callback(_act('class', '{name}', '{beh}'))\n" if place in ("class", "both") else ""
     deco_m = f"    @func_adl_callback(_act('method', '{name}', '{beh}'))\n" if place in ("method", "both") else ""
+    if place == "func+method":
+        deco_m = f"    @func_adl_callback(_act('method', '{name}', 'md'))\n"
     body = f"{deco_m}    def tgt(self, p: int, q: int = 5) -> float: ...\n"
     body += "    def other(self) -> float: ...\n"
     if place == "prop":
@@ -67,6 +69,8 @@ def build(place, beh, inherit=False):
     src += class_src("Ev", place, beh, ["def jets(self) -> Iterable[Jet]: ...", "def a(self) -> float: ..."], inherit)
     if place == "func":
         src += f"@func_adl_callable(_act('func', 'fn', '{beh}'))\ndef fn(x: float, k: int = 3) -> float: ...\n"
+    if place == "func+method":
+        src += f"@func_adl_callable(_act('func', 'good', '{beh}'))\ndef good(x: Ev, k: int = 3) -> Iterable[Jet]: ...\n"
     mod = types.ModuleType("fadlmc_c09_model")
     sys.modules["fadlmc_c09_model"] = mod
     exec(src, mod.__dict__)
@@ -95,6 +99,8 @@ SITES = [
     ("d2selmany", "e.jets().SelectMany(lambda j: j.trks()).Select(lambda t: {c1})", [("Trk", "t", 1)], ("Select", "SelectMany")),
     ("d2selmany-in", "e.jets().SelectMany(lambda j: j.trks().Where(lambda t: {c1} > 0))", [("Trk", "t", 1)], ("Select", "SelectMany")),
     ("d1-and-d3", "{c1} + e.jets().Select(lambda j: j.trks().Select(lambda t: {c2}).First()).First()", [("Ev", "e", 1), ("Trk", "t", 2)], ("Select", "Where")),
+    ("fnres", "good(e).Select(lambda j: {c1})", [("Jet", "j", 1)], ("Select", "SelectMany")),
+    ("fnres-where", "good(e, 4).Where(lambda j: {c1} > 1).Count()", [("Jet", "j", 1)], ("Select",)),
     ("none", "e.a() + e.jets().Select(lambda j: j.pt()).First()", [], ("Select", "Where")),
 ]
 
@@ -124,9 +130,13 @@ class C09(Check):
             for place in PLACES:
                 for beh in BEHAVIOURS:
                     for site in SITES:
+                        if (site[0].startswith("fnres")) != (place == "func+method"):
+                            continue
                         for op in site[3]:
                             for parent in ("root", "derived", "root+inherit"):
                                 out.append((place, beh, site[0], op, parent))
+                            if site[0] in ("d2sel", "d2where", "d3", "d2selmany"):
+                                out.append((place, beh, site[0], op, "root+samenames"))
             return out
         return [Space("configurations", {"places": PLACES, "behaviours": BEHAVIOURS, "sites": [s[0] for s in SITES]},
                       cases, runner="run_case")]
@@ -143,6 +153,11 @@ class C09(Check):
         if op == "Where" and sname in ("d1", "d1x2", "none", "d1-and-d3"):
             body = f"({body}) > 1"
         lam = f"lambda e: {body}"
+        if parent.endswith("+samenames"):
+            # every nested lambda re-uses the name e (none of these sites mentions an outer parameter)
+            import re as _re
+            lam = _re.sub(r"\b[jt]\b", "e", lam)
+            calls = [_re.sub(r"\b[jt]\b", "e", c) for c in calls]
         canon = repr(payload)
         res = {"n": 1, "nt": [canon] if calls else [], "oc": [], "tags": {}, "viol": []}
 
@@ -172,8 +187,10 @@ class C09(Check):
                     expected.append(("class", owner))
                 if place in ("method", "both") and meth == "tgt":
                     expected.append(("method", owner))
-            elif kind == "func" and place == "func":
-                expected.append(("func", "fn"))
+            elif kind == "func" and place in ("func", "func+method"):
+                expected.append(("func", owner))
+            if kind == "call" and place == "func+method" and meth == "tgt":
+                expected.append(("method", owner))
             elif kind == "prop" and place == "prop":
                 expected.append(("prop", owner))
         got = [(k, o) for k, o, _, _ in log]
@@ -228,7 +245,7 @@ class C09(Check):
         out_lam = top.args[1]
         emitted = ast.unparse(out_lam)
         for (cls, var, arg), text in zip(site[2], calls):
-            want = _expected_call(place, beh, var, arg)
+            want = _expected_call(place, beh, "e" if parent.endswith("+samenames") else var, arg)
             if want not in emitted:
                 res["oc"].append("callsite-differs")
                 res["viol"].append({"kind": "emitted-call-site-differs-from-callback-result", "canon": canon,
@@ -267,6 +284,9 @@ def reference_sites(lam_src):
                     ty(a, env)
                 if f.id == "fn":
                     sites.append(("func", "fn", "fn"))
+                if f.id == "good":
+                    sites.append(("func", "good", "good"))
+                    return ("seq", "Jet")
                 return None
             if isinstance(f, ast.Attribute):
                 r = ty(f.value, env)
@@ -304,6 +324,8 @@ def _chain_metadata(a):
 
 
 def _expected_call(place, beh, var, arg):
+    if place == "func+method":
+        return f"{var}.tgt({arg}, 5)"
     kinds = {"class": ["class"], "method": ["method"], "both": ["class", "method"], "func": ["func"], "prop": ["prop"]}[place]
     if place == "func":
         name, args = "fn", [f"{var}.other()", str(arg)]
